@@ -275,6 +275,13 @@ def run_lookup_keying(P, rep, rule="R-FWD.keying"):
         items = {it["name"]: it["id"] for it in im["items"] if it["is_fn"]}
         for m in ("get", "try_get"):
             fn = P.fns.get(items.get(m))
+            if fn is not None:
+                import inline
+                hs_ = inline.helpers_of(P, [fn], depth=1)
+                if hs_:
+                    f2_, n2_ = inline.inlined(P, fn, frozenset(hs_))
+                    if n2_:
+                        fn = f2_
             if fn is None:
                 rep.anchor_missing(rule, nm + "::" + m)
                 continue
